@@ -34,6 +34,7 @@ type RectClip64 struct {
 	currIdx    int
 
 	getPath func(op *OutPt2) Path64
+	vt      verifRectState
 }
 
 func NewRectClip64(rect Rect64, getPathV ...func(op *OutPt2) Path64) *RectClip64 {
@@ -252,6 +253,7 @@ func (r *RectClip64) executeInternal(path Path64) {
 
 	i := 0
 	for i <= highI {
+		r.verifTick("rectclip.executeInternal")
 		prev = loc
 		prevCrossLoc := Inside
 		r.getNextLocation(path, &loc, &i, highI)
@@ -406,6 +408,7 @@ func (r *RectClip64) executeInternalPath64(path Path64) {
 	}
 
 	for i <= highI {
+		r.verifTick("rectclip.executeInternalPath64")
 		prev = loc
 		r.getNextLocation(path, &loc, &i, highI)
 
@@ -445,6 +448,7 @@ func (r *RectClip64) checkEdges() {
 		op = result
 		op2 = op
 		for {
+			r.verifTick("rectclip.checkEdges")
 			if isCollinear(op2.prev.pt, op2.pt, op2.next.pt) {
 				if op2 == op {
 					op2 = unlinkOpBack(op2)
@@ -508,6 +512,7 @@ func (r *RectClip64) tidyEdgePair(idx int, cw, ccw []*OutPt2) {
 	i, j := 0, 0
 
 	for i < len(cw) {
+		r.verifTick("rectclip.tidyEdgePair")
 		p1 := cw[i]
 		if p1 == nil || p1.next == p1.prev {
 			cw[i] = nil
@@ -992,7 +997,9 @@ func getPathRectClip(op *OutPt2) Path64 {
 	}
 
 	op2 := op.next
+	var vt verifTicker
 	for op2 != nil && op2 != op {
+		vt.tick("rectclip.getPath")
 		if isCollinear(op2.prev.pt, op2.pt, op2.next.pt) {
 			op = op2.prev
 			op2 = unlinkOp(op2)
